@@ -52,4 +52,37 @@ theorem C12_answers_tree (o1 o2 : Order) (h1 : OrderOK o1) (h2 : OrderOK o2) (n 
         ∀ γ : Subst, ¬ StateSem γ s2) :=
   C04_tree o1 o2 h1 h2 n as as.reverse (List.reverse_perm as).symm
 
+/-- a conjunction of constraint programs (the bodies of a `for`, one per element), right-nested -/
+def conjProg : List FProg → FProg
+  | [] => .succeed
+  | p :: ps => .conj p (conjProg ps)
+
+/-- its solutions: the valuations that are solutions of EVERY body -/
+theorem fsols_conjProg (ps : List FProg) (γ : Subst) : FSols (conjProg ps) γ ↔ ∀ p ∈ ps, FSols p γ := by
+  induction ps with
+  | nil =>
+    simp only [conjProg, List.not_mem_nil, false_imp_iff, implies_true, iff_true]
+    exact ⟨[], by simp [FProg.paths], fun _ h => nomatch h⟩
+  | cons p ps ih =>
+    have hc : FSols (.conj p (conjProg ps)) γ ↔ (FSols p γ ∧ FSols (conjProg ps) γ) := by
+      unfold FSols
+      simp only [FProg.paths, List.mem_flatMap, List.mem_map]
+      constructor
+      · rintro ⟨_, ⟨x, hx, y, hy, rfl⟩, h⟩
+        exact ⟨⟨x, hx, fun c hc => h c (List.mem_append.2 (.inl hc))⟩, ⟨y, hy, fun c hc => h c (List.mem_append.2 (.inr hc))⟩⟩
+      · rintro ⟨⟨x, hx, h1⟩, ⟨y, hy, h2⟩⟩
+        exact ⟨x ++ y, ⟨x, hx, y, hy, rfl⟩, fun c hc => (List.mem_append.1 hc).elim (h1 c) (h2 c)⟩
+    simp only [conjProg, hc, ih, List.mem_cons, forall_eq_or_imp]
+
+/-- `for` over constraint bodies (any nesting of conjunction / conde / fresh inside each body): building the
+    conjunction in REVERSE collection order (what `Everyg` does, `C12_def`) has exactly the solutions of the
+    forward conjunction — and of any other order of the elements -/
+theorem C12_order_irrelevant (ps qs : List FProg) (h : ps.Perm qs) (γ : Subst) :
+    FSols (conjProg ps) γ ↔ FSols (conjProg qs) γ := by
+  rw [fsols_conjProg, fsols_conjProg]
+  exact ⟨fun a p hp => a p (h.mem_iff.2 hp), fun a p hp => a p (h.mem_iff.1 hp)⟩
+
+theorem C12_reverse (ps : List FProg) (γ : Subst) : FSols (conjProg ps.reverse) γ ↔ FSols (conjProg ps) γ :=
+  C12_order_irrelevant ps.reverse ps (List.reverse_perm ps) γ
+
 end Pv
